@@ -12,6 +12,7 @@ structure Block where
   beginEvents : List Event
   endEvents : List Event
   txs : List (Bytes × List Event)      -- in block order: position = index
+deriving Repr, DecidableEq
 
 structure State where
   db : Index.DB := []
